@@ -6,6 +6,7 @@ import (
 	"sort"
 	"strconv"
 	"strings"
+	"time"
 )
 
 func init() { runners["c06"] = runC06; runners["c14"] = runC14 }
@@ -319,6 +320,7 @@ func runC06(tier string, seed uint64) {
 	}
 	for _, kind := range allKinds {
 		c06BackendRefusal("c06", kind)
+		c06CompleteOverlap(kind)
 		mpSlowPart("c06", kind) // a part upload in flight while its upload is completed
 	}
 	nseq, length := 25, 30
@@ -477,12 +479,17 @@ func runC14(tier string, seed uint64) {
 	keyPool0 := []string{"a", "b/x", "b/y", "c", "d/e/f", "ab", "b"}
 	// keys that begin with a byte that sorts before the delimiter (keys that begin with the delimiter itself: see keyPool2; and known finding D32 for what happens when their groups interleave)
 	keyPool1 := []string{"docs/c", "docs/a", ".cfg/x", "-tmp", "+in/1", ".x", "docs/b/z"}
+	// keys with white space at either end: a marker is the key, byte for byte
+	keyPool3 := []string{" lead", "mid dle", "trail ", " ", "\ttab", "z"}
 	// a key that begins with the delimiter next to the key it turns into when the delimiter is stripped
 	keyPool2 := []string{"/data", "c", "data"}
 	for i := 0; i < nseq; i++ {
 		keyPool := keyPool0
 		if i%4 == 3 {
 			keyPool = keyPool1
+		}
+		if i%8 == 2 {
+			keyPool = keyPool3
 		}
 		if i%8 == 5 {
 			// a fixed shape: "/data" is reported under the name "data" (its delimiter is stripped), "c" sorts
@@ -619,4 +626,97 @@ func runC14(tier string, seed uint64) {
 		s.end()
 	}
 	sample("histories of 14-24 ops (initiate over up to 6 keys incl. keys sharing 'b/' and 'b', upload-part with gaps {1,2,3,5,8,13,40}, abort, complete), then for every pending upload: ListParts walks for every max-parts 1..n+1 following NextPartNumberMarker, arbitrary markers {0,1,2,4,13,14,41,42,10^6}; ListMultipartUploads walks for every max-uploads 1..n+1 over 6 prefix/delimiter combinations following (NextKeyMarker, NextUploadIdMarker)")
+}
+
+// c06CompleteOverlap: the write of the assembled object is held open (a slow backend) while an abort,
+// another part upload or a second complete of the same upload arrives. "Once, or nothing": the two
+// requests both finish, exactly one of complete / abort takes effect, and the object is the listed
+// parts or what was there before.
+func c06CompleteOverlap(kind string) {
+	st := newStore(kind)
+	if st.Ext != nil {
+		st.Close()
+		return
+	}
+	gb := &gatePut{Backend: st.Backend}
+	s := &Sess{prop: "c06", kind: kind, st: st, h: newServer(gb), mute: true}
+	pre := "-"
+	if isSingle(kind) {
+		pre = hs(singleBucketName)
+	}
+	emit("c06", "H", kind, "auto=0,versioned=0,pages=0,failpage=0", pre)
+	emit("c06", "NOMODEL")
+	b := singleBucketName
+	if !isSingle(kind) {
+		s.MkBucket(b)
+	}
+	verdict := func(ok bool, what string) {
+		if ok {
+			emit("c06", "GOOD", hs(what))
+		} else {
+			emit("c06", "BAD", hs(what))
+		}
+	}
+	for i, second := range []string{"abort", "part", "complete"} {
+		key := fmt.Sprintf("ov%d", i)
+		s.Put(b, key, []byte("PREVIOUS"), nil)
+		uid := s.Initiate(b, key, nil)
+		e1 := s.UploadPart(b, key, uid, 1, []byte("part-one|"))
+		e2 := s.UploadPart(b, key, uid, 2, []byte("part-two"))
+		parts := []CPart{{1, e1}, {2, e2}}
+		gb.arm()
+		c1 := make(chan Resp, 1)
+		go func() { c1 <- s.Complete(b, key, uid, parts) }()
+		if !waitOr(gb.entered, 5*time.Second) {
+			emit("c06", "HANG", hs(kind+": complete never reached the backend write"))
+			return
+		}
+		c2 := make(chan Resp, 1)
+		go func() {
+			switch second {
+			case "abort":
+				c2 <- s.Abort(b, key, uid)
+			case "part":
+				c2 <- do(s.h, Req{Method: "PUT", Path: "/" + b + "/" + key + "?uploadId=" + queryEscape(uid) + "&partNumber=3", Body: []byte("late part")})
+			default:
+				c2 <- s.Complete(b, key, uid, parts)
+			}
+		}()
+		time.Sleep(50 * time.Millisecond)
+		close(gb.release)
+		var r1, r2 Resp
+		ok1, ok2 := false, false
+		select {
+		case r1 = <-c1:
+			ok1 = true
+		case <-time.After(5 * time.Second):
+		}
+		select {
+		case r2 = <-c2:
+			ok2 = true
+		case <-time.After(5 * time.Second):
+		}
+		if !ok1 || !ok2 {
+			emit("c06", "HANG", hs(fmt.Sprintf("%s: a complete whose backend write is slow, overlapped by %s of the same upload: the two requests do not both finish", kind, second)))
+			return // requests are stuck inside the store
+		}
+		g := do(s.h, Req{Method: "GET", Path: "/" + b + "/" + key})
+		assembled := g.Status == 200 && string(g.Body) == "part-one|part-two"
+		previous := g.Status == 200 && string(g.Body) == "PREVIOUS"
+		msg := fmt.Sprintf("%s: complete (slow backend write) overlapped by %s: complete answers %d %s%s, %s answers %d %s%s, GET answers %d %q", kind, second,
+			r1.Status, errCode(r1.Body), r1.Panic, second, r2.Status, errCode(r2.Body), r2.Panic, g.Status, truncate(g.Body, 30))
+		switch second {
+		case "abort":
+			verdict(r1.Panic == "" && r2.Panic == "" && ((r1.Status == 200 && r2.Status >= 400 && assembled) || (r2.Status == 204 && r1.Status >= 400 && previous)), msg)
+		case "part":
+			verdict(r1.Panic == "" && r2.Panic == "" && r1.Status == 200 && assembled, msg)
+		default:
+			verdict(r1.Panic == "" && r2.Panic == "" && (r1.Status == 200) != (r2.Status == 200) && assembled, msg)
+		}
+		// the upload is gone either way, and the server still serves multipart requests
+		lp, hung := doDeadline(s.h, Req{Method: "GET", Path: "/" + b + "/" + key + "?uploadId=" + queryEscape(uid)}, 3*time.Second)
+		verdict(!hung && lp.Status == 404, fmt.Sprintf("%s: afterwards the upload id no longer exists (list-parts answers %d, hung=%v)", kind, lp.Status, hung))
+		nontrivial(kind + "|complete-overlapped-by-" + second)
+	}
+	s.end()
 }
